@@ -34,6 +34,9 @@ class ResourceManager:
         # Record initial resource amounts.
         for resource_name in self._resources.keys():
             self._record_resource_amount_update(resource_name)
+        # Requests could have been registered before the simulation.
+        if len(self._waiting_requests) > 0:
+            self._schedule_check_pending_requesters()
 
     def get_resource_usage(self, resource_name):
         '''Get how much of a resource is currently reserved/in-use.
@@ -173,6 +176,10 @@ class ResourceManager:
         self._schedule_check_pending_requesters()
 
     def _schedule_check_pending_requesters(self):
+        if self._env == None:
+            # Not initialized yet, requests will be checked when the
+            # simulation starts.
+            return
         self._env.schedule_event(self._env.now, -1, self._check_pending_requests,
                                  EventType.OTHER_HIGH_PRIORITY, 'From ResourceManager')
 
@@ -207,6 +214,10 @@ class ResourceManager:
         return True
 
     def _record_resource_amount_update(self, resource_name):
+        if self._env == None:
+            # Not initialized yet, all resource amounts are recorded
+            # when the simulation starts.
+            return
         in_use, max_available = self._resources[resource_name]
         self._env.add_datapoint('resource_update', resource_name, (self._env.now, in_use, max_available))
 
